@@ -265,12 +265,8 @@ pub fn warm_up(st: &mut VStore, traversal: &mut TraversalBuffer, bb: &mut BraidB
         let _ = q.push(loc(108, 8));
     }
     let _ = traversal.get();
-    warm_strand(st, bb);
-    warm_strand(st, bb);
-    warm_strand(st, bb);
-    warm_strand(st, bb);
-    warm_strand(st, bb);
-    let _ = bb.strands.get();
+    // (the strand heap is the fixed-capacity stand-in of group runtime-braid: nothing to reserve)
+    let _ = (st, bb);
 }
 
 fn warm_strand(st: &mut VStore, bb: &mut BraidBuffer<VSeg>) {
